@@ -27,7 +27,8 @@ Inc(d) == IF d = <<>> THEN <<1>>
 RECURSIVE StripLeftKeep(_)
 StripLeftKeep(d) == IF Len(d) > 1 /\ d[1] = 0 THEN StripLeftKeep(Tail(d)) ELSE d
 RECURSIVE Dec(_)
-Dec(d) == IF d[Len(d)] > 0
+Dec(d) == IF d = <<0>> THEN <<0>>        \* magnitudes: stay at zero
+          ELSE IF d[Len(d)] > 0
           THEN StripLeftKeep([d EXCEPT ![Len(d)] = @ - 1])
           ELSE StripLeftKeep(Append(Dec(SubSeq(d, 1, Len(d) - 1)), 9))
 RECURSIVE Shift(_, _)
